@@ -273,6 +273,55 @@ Theorem C06_translated_encodeUvarint_is_uvarint : forall fuel (n : N),
   = GoLite.RRet (GoLite.VInts (map Z.of_N (uvarint n))).
 Proof. exact (GoLiteC06_Codec.encodeUvarint_is_uvarint GoLiteC06.prog GoLiteC06.prog_encodeUvarint). Qed.
 
+(* offset-size-slot.go:OffsetAndSizeAndSlotSliceFromBytes — the decoder ReadWithSize runs on the decompressed payload of
+   every record — with its loop, (OffsetAndSizeAndSlot).FromReader and the two reader methods, IS the model's
+   entries_dec, for EVERY byte string: entries until io.EOF (an io.EOF inside an entry also ends the loop silently:
+   errors.Is sees through the %w wrapping), a malformed uvarint is the error *)
+Require YF.GoLiteC06_Decode.
+Theorem C06_translated_record_decoder_is_entries_dec : forall (bs : list N),
+  (Z.of_nat (List.length bs) < 4611686018427387904)%Z -> Forall (fun b => (b < 256)%N) bs ->
+  forall g f, List.length bs + 3 <= g -> List.length bs < f ->
+  GoLite.call GoLiteC06.prog GoLiteC06_Codec.std_ext g "OffsetAndSizeAndSlotSliceFromBytes"%string
+    [GoLite.VInts (map Z.of_N bs)] =
+  match entries_dec f bs with
+  | Some es => GoLite.RRet (GoLite.VTuple [GoLite.VTuple (map GoLiteC06_Codec.oas_val es); GoLite.VNil])
+  | None => GoLite.RRet (GoLite.VTuple [GoLite.VInts []; GoLite.VErr "%w %w errors.New"%string])
+  end.
+Proof.
+  exact (GoLiteC06_Decode.SliceFromBytes_is_entries_dec GoLiteC06.prog GoLiteC06.prog_uvarintReader_ReadUvarint
+           GoLiteC06.prog_uvarintReader_ReadByte GoLiteC06.prog_OffsetAndSizeAndSlot_FromReader
+           GoLiteC06.prog_OffsetAndSizeAndSlotSliceFromBytes).
+Qed.
+
+(* ... and applied to what the writer concatenates for a record (the Bytes of each entry: entries_enc) it returns
+   exactly the entries, in order *)
+Theorem C06_translated_record_decoder_roundtrip : forall (es : list entry) g,
+  Forall entry_wf es -> (Z.of_nat (List.length (entries_enc es)) < 4611686018427387904)%Z ->
+  List.length (entries_enc es) + 3 <= g ->
+  GoLite.call GoLiteC06.prog GoLiteC06_Codec.std_ext g "OffsetAndSizeAndSlotSliceFromBytes"%string
+    [GoLite.VInts (map Z.of_N (entries_enc es))] =
+  GoLite.RRet (GoLite.VTuple [GoLite.VTuple (map GoLiteC06_Codec.oas_val es); GoLite.VNil]).
+Proof.
+  exact (GoLiteC06_Decode.SliceFromBytes_entries_enc GoLiteC06.prog GoLiteC06.prog_uvarintReader_ReadUvarint
+           GoLiteC06.prog_uvarintReader_ReadByte GoLiteC06.prog_OffsetAndSizeAndSlot_FromReader
+           GoLiteC06.prog_OffsetAndSizeAndSlotSliceFromBytes).
+Qed.
+
+(* the translated decoder RUNS: two entries; the same bytes cut between two fields of the second entry give the first entry only
+   (the silent io.EOF); a malformed uvarint (ten continuation bytes) is the error *)
+Example C06_translated_record_decoder_runs :
+  let e1 : entry := (300, 5, 432001, 6)%N in let e2 : entry := (7, 70000, 432000, 1)%N in
+  GoLite.call GoLiteC06.prog GoLiteC06_Codec.std_ext 40 "OffsetAndSizeAndSlotSliceFromBytes"%string
+    [GoLite.VInts (map Z.of_N (entries_enc [e1; e2]))]
+  = GoLite.RRet (GoLite.VTuple [GoLite.VTuple [GoLiteC06_Codec.oas_val e1; GoLiteC06_Codec.oas_val e2]; GoLite.VNil]) /\
+  GoLite.call GoLiteC06.prog GoLiteC06_Codec.std_ext 40 "OffsetAndSizeAndSlotSliceFromBytes"%string
+    [GoLite.VInts (map Z.of_N (firstn 8 (entries_enc [e1; e2])))]
+  = GoLite.RRet (GoLite.VTuple [GoLite.VTuple [GoLiteC06_Codec.oas_val e1]; GoLite.VNil]) /\
+  GoLite.call GoLiteC06.prog GoLiteC06_Codec.std_ext 40 "OffsetAndSizeAndSlotSliceFromBytes"%string
+    [GoLite.VInts [255; 255; 255; 255; 255; 255; 255; 255; 255; 255; 255]%Z]
+  = GoLite.RRet (GoLite.VTuple [GoLite.VInts []; GoLite.VErr "%w %w errors.New"%string]).
+Proof. vm_compute. repeat split; reflexivity. Qed.
+
 (* non-vacuity: the translated codec RUNS in the kernel: an entry is encoded, then read back field by field *)
 Example C06_translated_codec_runs :
   let e : entry := (300, 5, 432001, 6)%N in
@@ -294,3 +343,5 @@ Print Assumptions C06_translated_read_byte.
 Print Assumptions C06_translated_bitmap_get.
 Print Assumptions C06_translated_bitmap_set.
 Print Assumptions C06_translated_encodeUvarint_is_uvarint.
+Print Assumptions C06_translated_record_decoder_is_entries_dec.
+Print Assumptions C06_translated_record_decoder_roundtrip.
